@@ -102,6 +102,7 @@ func (c *Command) UnmarshalBinary(uplink bool, data []byte) error {
 	}
 
 	c.CID = CID(data[0])
+	c.Payload = nil
 
 	p, err := GetCommandPayload(uplink, c.CID)
 	if err != nil {
